@@ -237,6 +237,19 @@ def make_eval_case(origin: str, e, p: dict) -> dict:
     return {"origin": origin, "e": wire.expr(e, ids={}), "p": wire.point(p)}
 
 
+
+def constants_all_dyadic(e) -> bool:
+    """every Constant in the tree is an integer or a small dyadic rational: constant folding that
+    produced them was exact (6 * (1/5) folds to 1.2000000000000002, which is not)"""
+    if wire.cls(e) == "Constant":
+        v = e.value
+        if isinstance(v, bool) or not isinstance(v, (int, float)):
+            return False
+        if isinstance(v, int):
+            return True
+        return math.isfinite(v) and abs(v) < 2.0 ** 40 and float(v * 2.0 ** 20).is_integer()
+    return all(constants_all_dyadic(c) for c in wire.children(e))
+
 # ----------------------------------------------------------------------------- K signatures
 
 def tree_has(e, pred) -> bool:
